@@ -12,6 +12,13 @@
 // reference count / init flag / site set of every region); answers are joined with " ; ".
 // --mode=itv (default, the modelled instance) | boolitv | zones | signconst  (base domains; program
 // and base variables share their names: fixed-naming ghost manager, the only one that compiles).
+// --mode=itvx: as itv with the extended printing used by the RegionCore2 model stream: the dynamic
+// type of every region (",t?" top, ",tb" bottom, ",tu" unknown, ",ti" integers, ",tr" references),
+// and, when is_dereferenceable is set, the offset and size ghost variables of every reference and of
+// every region whose ghost variables have them (";o<itv>;s<itv>"), and for unknown regions the raw
+// value of all four potential ghost variables (";raw<plain>,<address>,<offset>,<size>").
+// The ghost names (.address/.offset/.size and the .dup copies) are created in a fixed order when the
+// variables are declared, so that their indices do not depend on the history.
 #include "crab_lang.hpp"
 #include "hcommon.hpp"
 #include <crab/domains/abstract_domain_params.hpp>
@@ -40,6 +47,7 @@ template <> inline std::string variable_name_traits<long>::to_string(long v) { r
 }
 
 namespace rg {
+static bool ext = false;
 using namespace crab::domains;
 using namespace ikos;
 
@@ -114,6 +122,16 @@ template <typename L> struct ctx {
     add(Q, "Q", nQ, crab::REG_REF_TYPE, 32);
     add(U, "U", nU, crab::REG_UNKNOWN_TYPE, 0);
     for (unsigned i = 0; i < 16; ++i) sites.push_back(tm.mk_tag());
+    // ghost names in a fixed order: <v>.address .offset .size for references, regions of references
+    // and unknown regions; then for every region the names ghost_variable_manager::dup derives
+    for (auto *vs : {&P, &Q, &U})
+      for (auto &v : *vs) for (const char *role : {".address", ".offset", ".size"}) vfac.get(v.name(), role);
+    for (auto *vs : {&R, &Q, &U})
+      for (auto &v : *vs) {
+        vfac.get(v.name(), ".dup");
+        for (const char *role : {".address", ".offset", ".size"})
+          vfac.get(vfac.get(v.name(), role), std::string(role) + ".dup");
+      }
   }
   var_t var(const std::string &n) {
     unsigned k = std::stoul(n.substr(1));
@@ -228,7 +246,32 @@ template <typename L, typename Dom> std::string show_count(ctx<L> &c, Dom &d, co
   else s = "1+";
   const boolean_value &b = info.init_val();
   s += b.is_bottom() ? ",ib" : b.is_false() ? ",if" : b.is_true() ? ",it" : ",i?";
+  if (ext) {
+    const type_value &t = info.type_val();
+    if (t.is_bottom()) s += ",tb";
+    else if (t.is_top()) s += ",t?";
+    else {
+      crab::variable_type ty = t.get();
+      s += ty.is_unknown_region() ? ",tu" : ty.is_integer_region() ? ",ti" : ty.is_reference_region() ? ",tr" : ",to";
+    }
+  }
   return s;
+}
+// extended printing: offset / size ghost variables
+template <typename L, typename Dom> std::string show_offsize(ctx<L> &c, Dom &d, const typename L::var_t &v) {
+  if (!ext || !crab_domain_params_man::get().region_is_dereferenceable()) return "";
+  std::string r;
+  auto gv = d.get_gvars(v);
+  if (gv && gv->has_offset_and_size())
+    r += ";o" + str(d.m_base_dom.at(gv->get_offset_and_size().get_offset())) +
+         ";s" + str(d.m_base_dom.at(gv->get_offset_and_size().get_size()));
+  if (v.get_type().is_unknown_region()) {
+    typedef typename Dom::base_variable_t bvar_t;
+    r += ";raw" + str(d.m_base_dom.at(bvar_t(v.name(), crab::INT_TYPE, 32)));
+    for (const char *role : {".address", ".offset", ".size"})
+      r += "," + str(d.m_base_dom.at(bvar_t(c.vfac.get(v.name(), role), crab::INT_TYPE, 32)));
+  }
+  return r;
 }
 template <typename L, typename Dom> std::string show_rsites(ctx<L> &c, Dom &d, const typename L::var_t &rgn) {
   if (!crab_domain_params_man::get().region_allocation_sites()) return "?";
@@ -251,6 +294,7 @@ template <typename L, typename Dom> std::string show_state(ctx<L> &c, Dom &d) {
     boolean_value nl = d.is_null_ref(c.P[i]);
     r += nl.is_bottom() ? ";nb" : nl.is_true() ? ";nt" : nl.is_false() ? ";nf" : ";n?";
     r += ";" + show_sites(c, d, c.P[i]);
+    r += show_offsize(c, d, c.P[i]);
   }
   r += " G:";
   bool first = true;
@@ -259,6 +303,7 @@ template <typename L, typename Dom> std::string show_state(ctx<L> &c, Dom &d) {
       const typename L::var_t &g = (*vs)[i];
       r += (first ? "" : "|"); first = false;
       r += str(d.at(g)) + ";" + show_count(c, d, g) + ";" + show_rsites(c, d, g) + ";" + show_tags(c, d, g);
+      r += show_offsize(c, d, g);
     }
   return r;
 }
@@ -314,6 +359,15 @@ template <typename L, typename Dom> std::string run_history(const std::vector<st
       }
       emit(s + "}"); continue;
     }
+    if (op == "q_deref") {                       // q_deref r p (c:<n> | v:<int var>): ghost_offset_and_size::is_deref
+      z_var p = c.var(k.next()); voc_t sz = parse_val(c, k, false);
+      if (d.is_bottom()) { emit("_|_"); continue; }
+      if (!crab_domain_params_man::get().region_is_dereferenceable()) { emit("off"); continue; }
+      auto gv = d.get_gvars(p);
+      if (!gv || !gv->has_offset_and_size()) { emit("?"); continue; }
+      emit(gv->get_offset_and_size().is_deref(d.m_base_dom, d.rename_variable_or_constant(sz)) ? "true" : "false");
+      continue;
+    }
     if (op == "top") d.set_to_top();
     else if (op == "bot") d.set_to_bottom();
     else if (op == "copy") { long s = k.nexti(); Dom tmp(regs[s]); d = tmp; }
@@ -362,6 +416,12 @@ template <typename L, typename Dom> std::string run_history(const std::vector<st
       std::vector<voc_t> in{voc_t(g), voc_t(p), voc_t(t, crab::variable_type(crab::INT_TYPE, 32))};
       std::vector<z_var> outv{b};
       d.intrinsic("does_not_have_tag", in, outv);
+    }
+    else if (op == "isderef") {                  // isderef r b G p (c:<n> | v:<int var>)
+      z_var b = c.var(k.next()), g = c.var(k.next()), p = c.var(k.next()); voc_t sz = parse_val(c, k, false);
+      std::vector<voc_t> in{voc_t(g), voc_t(p), sz};
+      std::vector<z_var> outv{b};
+      d.intrinsic("is_dereferenceable", in, outv);
     }
     else if (op == "nonnull") {
       z_var p = c.var(k.next());
@@ -425,6 +485,7 @@ int main(int argc, char **argv) {
   if (argc > 1 && std::strncmp(argv[1], "--mode=", 7) == 0) {
     const char *m = argv[1] + 7;
     mode = !std::strcmp(m, "boolitv") ? 1 : !std::strcmp(m, "zones") ? 2 : !std::strcmp(m, "signconst") ? 3 : 0;
+    rg::ext = !std::strcmp(m, "itvx");
     return vh::run_cases(argc - 1, argv + 1, eval);
   }
   return vh::run_cases(argc, argv, eval);
